@@ -9,7 +9,7 @@
 (*   randoms  i, n, ret = sequence of limbs                                *)
 (*   randint  i, a, b, ret        randints i, n, a, b, ret                 *)
 (*   shuffle  i, n, ret = the permutation of 0..n-1                        *)
-(*   choice   i, n, ret           choicew i, w (integer weights), ret, rw  *)
+(*   choice   i, n, ret           choicew i, w (int weights), sq, rm, rw   *)
 (*   gauss    i, k = number of values drawn (all finite, checked by the    *)
 (*            driver); the spec accounts for the uniforms they consume     *)
 (* Every returned value must equal the specification's, and the generator  *)
@@ -35,7 +35,10 @@ TrEvent == LET i == Ev.i IN
   \/ Ev.op = "randints" /\ inst[i].live /\ Ev.ret = RandInts(S(i), Ev.n, Ev.a, Ev.b) /\ Adv(i, Ev.n)
   \/ Ev.op = "shuffle" /\ inst[i].live /\ Ev.ret = Shuffle(S(i), Ev.n) /\ Adv(i, ShuffleDraws(Ev.n))
   \/ Ev.op = "choice"  /\ inst[i].live /\ Ev.ret = ChoiceU(S(i), Ev.n) /\ Adv(i, 1)
-  \/ Ev.op = "choicew" /\ inst[i].live /\ Ev.ret = ChoiceW(S(i), Ev.w) /\ Ev.rw = Ev.w[Ev.ret + 1] /\ Ev.rw > 0 /\ Adv(i, 1)
+  \* sq = the members offered (ids; the SAME member may be listed twice with different weights), rm = the member returned,
+  \* rw = the weight returned with it (-1: choice(seq, weights) returns the member only).  The drawn POSITION k decides both.
+  \/ Ev.op = "choicew" /\ inst[i].live /\ Adv(i, 1)
+     /\ LET k == ChoiceW(S(i), Ev.w) IN Ev.sq[k + 1] = Ev.rm /\ Ev.w[k + 1] > 0 /\ Ev.rw \in {-1, Ev.w[k + 1]}
   \/ Ev.op = "gauss"   /\ inst[i].live /\ Ev.k = 1 /\ Gauss(i)        \* the contract: defined in every state (the driver reports a raise / non-finite value)
 TraceNext == l <= Len(Evs) /\ TrEvent /\ l' = l + 1 /\ UNCHANGED tid
 TraceSpec == TraceInit /\ [][TraceNext]_tvars
